@@ -4,8 +4,9 @@ CONSTANTS
     Impl = "asis"
     Kind = "mps"
     MaxV = 2
-    Temps = {1, 2, 3}
+    Temps = {1, 2}
 INVARIANT Resume
 INVARIANT Keys
 INVARIANT ClassTotal
 INVARIANT HistOk
+INVARIANT NoHidden
